@@ -1,0 +1,329 @@
+//go:build verif
+
+// Contracts for the deductive checker in /verif (comment-only; compiled only with -tags verif).
+// C06 (write control: the reported writing state matches what the channels do) and
+// C20 (run-log side files record every event exactly once, in order).
+//
+// I/O is modelled through trusted library contracts over ghost state:
+//   os.File:      nw = number of WriteString calls accepted, w[k] = the k-th string written
+//   bufio.Writer: n = number of bytes accepted, acc[i] = i-th byte, items = number of Write/WriteString calls
+// IOFaults() is an uninterpreted constant: C06/C20 quantify over request histories, not over I/O
+// faults, and therefore require !IOFaults(); C11's handlers are checked without that assumption.
+
+package dastard
+
+//@ ufunc IOFaults() bool
+//@ ufunc hasprefix(s string, p string) bool
+//@ ufunc toupper(s string) string
+//@ ufunc strbyte(s string, i int) int
+
+//@ ghost field os.File.nw mathint
+//@ ghost field os.File.w strmap
+//@ ghost field os.File.closed bool
+//@ ghost field bufio.Writer.n mathint
+//@ ghost field bufio.Writer.acc intmap
+//@ ghost field bufio.Writer.items mathint
+//@ ghost field bufio.Writer.file *os.File
+
+//@ extern func strings.HasPrefix
+//@   pure
+//@   ensures result == hasprefix(s, prefix)
+//@ extern func strings.ToUpper
+//@   pure
+//@   ensures result == toupper(s)
+
+//@ extern func os.Create
+//@   ensures !IOFaults() ==> result1 == nil
+//@   ensures result1 == nil ==> result0 != nil && fresh(result0) && result0.nw == 0 && !result0.closed
+//@ extern func (*os.File).WriteString
+//@   ensures !IOFaults() ==> err == nil
+//@   ensures err == nil ==> f.nw == old(f.nw) + 1 && f.w[old(f.nw)] == s && (forall k int :: {f.w[k]} k < old(f.nw) ==> f.w[k] == old(f.w[k]))
+//@   ensures err != nil ==> f.nw == old(f.nw) && (forall k int :: {f.w[k]} k < old(f.nw) ==> f.w[k] == old(f.w[k]))
+//@   modifies f.nw, f.w
+//@ extern func (*os.File).Close
+//@   ensures !IOFaults() ==> result == nil
+//@   ensures f.closed
+//@   modifies f.closed
+//@ extern func bufio.NewWriter
+//@   ensures result != nil && fresh(result) && result.n == 0 && result.items == 0
+//@ extern func (*bufio.Writer).WriteString
+//@   ensures !IOFaults() ==> result1 == nil
+//@   ensures result1 == nil ==> b.n == old(b.n) + len(s) && b.items == old(b.items) + 1
+//@        && (forall i int :: {b.acc[i]} i < old(b.n) ==> b.acc[i] == old(b.acc[i]))
+//@        && (forall i int :: {b.acc[i]} old(b.n) <= i && i < b.n ==> b.acc[i] == strbyte(s, i - old(b.n)))
+//@   ensures result1 != nil ==> b.n == old(b.n) && b.items == old(b.items) && (forall i int :: {b.acc[i]} i < old(b.n) ==> b.acc[i] == old(b.acc[i]))
+//@   modifies b.n, b.acc, b.items
+//@ extern func (*bufio.Writer).Write
+//@   ensures !IOFaults() ==> err == nil
+//@   ensures err == nil ==> b.n == old(b.n) + len(p) && b.items == old(b.items) + 1
+//@        && (forall i int :: {b.acc[i]} i < old(b.n) ==> b.acc[i] == old(b.acc[i]))
+//@        && (forall i int :: {b.acc[i]} old(b.n) <= i && i < b.n ==> b.acc[i] == at(p, p.off + i - old(b.n)))
+//@   ensures err != nil ==> b.n == old(b.n) && b.items == old(b.items) && (forall i int :: {b.acc[i]} i < old(b.n) ==> b.acc[i] == old(b.acc[i]))
+//@   modifies b.n, b.acc, b.items
+//@ extern func (*bufio.Writer).Flush
+//@   pure
+//@   ensures !IOFaults() ==> result == nil
+
+// ---------------------------------------------------------------------------------------------
+// Writing state (C20, C06)
+// ---------------------------------------------------------------------------------------------
+
+// InvS: the side-file handles exist only while writing is active; an inactive state has no
+// handle and no file name left over (so a later START cannot reach the files of an earlier run).
+//@ pred InvS(ws *WritingState) := ((ws.externalTriggerFile == nil) <==> (ws.externalTriggerFileBufferedWriter == nil))
+//@     && ((ws.dataDropFile == nil) <==> (ws.dataDropFileBufferedWriter == nil))
+//@     && (!ws.Active ==> ws.experimentStateFile == nil && ws.externalTriggerFile == nil && ws.dataDropFile == nil
+//@          && ws.ExternalTriggerFilename == "" && ws.DataDropFilename == "" && ws.ExperimentStateFilename == "" && ws.FilenamePattern == "")
+//@     && (ws.experimentStateFile != nil ==> allocated(ws.experimentStateFile) && ws.experimentStateFile.nw >= 2)
+//@     && (ws.externalTriggerFileBufferedWriter != nil ==> allocated(ws.externalTriggerFileBufferedWriter))
+//@     && (ws.dataDropFileBufferedWriter != nil ==> allocated(ws.dataDropFileBufferedWriter))
+
+//@ func (*WritingState).setExperimentStateLabel
+//@   props C20
+//@   requires !IOFaults()
+//@   requires ws.experimentStateFile != nil ==> allocated(ws.experimentStateFile)
+//@   ensures ok: result == nil && ws.experimentStateFile != nil && allocated(ws.experimentStateFile) && ws.ExperimentStateLabel == stateLabel
+//@   ensures fresh: old(ws.experimentStateFile) == nil ==> fresh(ws.experimentStateFile) && ws.experimentStateFile.nw == 2
+//@   ensures oneline: old(ws.experimentStateFile) != nil ==> ws.experimentStateFile == old(ws.experimentStateFile) && ws.experimentStateFile.nw == old(ws.experimentStateFile.nw) + 1
+//@        && (forall k int :: {ws.experimentStateFile.w[k]} k < old(ws.experimentStateFile.nw) ==> ws.experimentStateFile.w[k] == old(ws.experimentStateFile.w[k]))
+//@   modifies ws.experimentStateFile, ws.ExperimentStateLabel, ws.ExperimentStateLabelUnixNano, any(os.File).nw, any(os.File).w
+
+//@ func (*WritingState).SetExperimentStateLabel
+//@   props C20 C06
+//@   requires !IOFaults() && InvS(ws)
+//@   ensures inv: InvS(ws)
+//@   ensures rejected: !old(ws.Active) ==> result != nil && unchanged(ws.experimentStateFile, ws.ExperimentStateLabel, ws.Active, ws.Paused)
+//@   ensures accepted: old(ws.Active) ==> result == nil && ws.experimentStateFile != nil && ws.ExperimentStateLabel == stateLabel
+//@        && (old(ws.experimentStateFile) != nil ==> ws.experimentStateFile == old(ws.experimentStateFile) && ws.experimentStateFile.nw == old(ws.experimentStateFile.nw) + 1)
+//@   modifies ws.experimentStateFile, ws.ExperimentStateLabel, ws.ExperimentStateLabelUnixNano, any(os.File).nw, any(os.File).w
+
+//@ func (*WritingState).Start
+//@   props C20 C06
+//@   requires !IOFaults() && InvS(ws) && config != nil
+//@   ensures inv: InvS(ws)
+//@   ensures state: result == nil && ws.Active && !ws.Paused && ws.FilenamePattern == filenamePattern && ws.BasePath == path
+//@        && ws.WriteLJH22 == config.WriteLJH22 && ws.WriteLJH3 == config.WriteLJH3 && ws.WriteOFF == config.WriteOFF
+//@   ensures newfiles: !old(ws.Active) ==> fresh(ws.experimentStateFile) && ws.experimentStateFile.nw == 2 && ws.externalTriggerFile == nil && ws.dataDropFile == nil
+//@   modifies ws.Active, ws.Paused, ws.BasePath, ws.WriteLJH22, ws.WriteLJH3, ws.WriteOFF, ws.FilenamePattern, ws.ExperimentStateFilename, ws.ExternalTriggerFilename, ws.DataDropFilename,
+//@            ws.experimentStateFile, ws.ExperimentStateLabel, ws.ExperimentStateLabelUnixNano, any(os.File).nw, any(os.File).w
+
+//@ func (*WritingState).Stop
+//@   props C20 C06
+//@   requires !IOFaults() && InvS(ws)
+//@   ensures inv: InvS(ws)
+//@   ensures stopped: result == nil && !ws.Active && !ws.Paused && ws.FilenamePattern == "" && ws.experimentStateFile == nil && ws.externalTriggerFile == nil && ws.dataDropFile == nil
+//@   ensures closed: (old(ws.experimentStateFile) != nil ==> old(ws.experimentStateFile).closed && old(ws.experimentStateFile).nw == old(ws.experimentStateFile.nw) + 1)
+//@        && (old(ws.externalTriggerFile) != nil ==> old(ws.externalTriggerFile).closed) && (old(ws.dataDropFile) != nil ==> old(ws.dataDropFile).closed)
+//@   modifies ws.Active, ws.Paused, ws.FilenamePattern, ws.experimentStateFile, ws.ExperimentStateFilename, ws.ExperimentStateLabel, ws.ExperimentStateLabelUnixNano,
+//@            ws.externalTriggerFileBufferedWriter, ws.externalTriggerFile, ws.dataDropFileBufferedWriter, ws.dataDropFile, ws.externalTriggerNumberObserved,
+//@            ws.ExternalTriggerFilename, ws.DataDropFilename, any(os.File).nw, any(os.File).w, any(os.File).closed
+
+//@ func (*WritingState).IsActive
+//@   props C20 C06
+//@   ensures result == ws.Active
+//@   modifies nothing
+
+// ---------------------------------------------------------------------------------------------
+// Per-channel publisher switches (C06)
+// ---------------------------------------------------------------------------------------------
+
+//@ func (*DataPublisher).HasLJH22
+//@   props C06
+//@   ensures result == (dp.LJH22 != nil)
+//@   modifies nothing
+//@ func (*DataPublisher).HasLJH3
+//@   props C06
+//@   ensures result == (dp.LJH3 != nil)
+//@   modifies nothing
+//@ func (*DataPublisher).HasOFF
+//@   props C06
+//@   ensures result == (dp.OFF != nil)
+//@   modifies nothing
+
+// The file writers themselves (packages ljh, off) are treated under C05/C07; here only their handles matter.
+//@ func (*DataPublisher).Flush
+//@   trusted
+//@   modifies nothing
+
+//@ func (*DataPublisher).SetPause
+//@   props C06
+//@   ensures dp.WritingPaused == pause
+//@   modifies dp.WritingPaused
+
+//@ func (*DataPublisher).RemoveLJH22
+//@   props C06
+//@   ensures dp.LJH22 == nil && dp.numberWritten == 0
+//@   modifies dp.LJH22, dp.numberWritten, any(os.File).closed
+//@ func (*DataPublisher).RemoveLJH3
+//@   props C06
+//@   ensures dp.LJH3 == nil && dp.numberWritten == 0
+//@   modifies dp.LJH3, dp.numberWritten, any(os.File).closed
+//@ func (*DataPublisher).RemoveOFF
+//@   props C06
+//@   ensures dp.OFF == nil && dp.numberWritten == 0
+//@   modifies dp.OFF, dp.numberWritten, any(os.File).closed
+
+//@ func (*DataPublisher).SetLJH22
+//@   props C06 C05
+//@   ensures handle: dp.LJH22 != nil && fresh(dp.LJH22) && !dp.WritingPaused && dp.numberWritten == 0
+//@   ensures header: dp.LJH22.ChannelIndex == ChannelIndex && dp.LJH22.Presamples == Presamples && dp.LJH22.Samples == Samples && dp.LJH22.FramesPerSample == FramesPerSample
+//@        && dp.LJH22.Timebase == Timebase && dp.LJH22.NumberOfRows == NumberOfRows && dp.LJH22.NumberOfColumns == NumberOfColumns && dp.LJH22.NumberOfChans == NumberOfChans
+//@        && dp.LJH22.SubframeDivisions == SubframeDivisions && dp.LJH22.SubframeOffset == SubframeOffset && dp.LJH22.RowNum == rowNum && dp.LJH22.ColumnNum == colNum
+//@        && dp.LJH22.FileName == FileName && dp.LJH22.ChanName == chanName && dp.LJH22.ChannelNumberMatchingName == ChannelNumberMatchingName && dp.LJH22.SourceName == sourceName
+//@        && !dp.LJH22.HeaderWritten && dp.LJH22.RecordsWritten == 0
+//@   modifies dp.LJH22, dp.WritingPaused, dp.numberWritten
+
+//@ func (*DataPublisher).SetLJH3
+//@   props C06 C05
+//@   ensures handle: dp.LJH3 != nil && fresh(dp.LJH3) && !dp.WritingPaused && dp.numberWritten == 0
+//@   ensures header: dp.LJH3.ChannelIndex == ChannelIndex && dp.LJH3.Timebase == Timebase && dp.LJH3.NumberOfRows == NumberOfRows && dp.LJH3.NumberOfColumns == NumberOfColumns
+//@        && dp.LJH3.SubframeDivisions == SubframeDivisions && dp.LJH3.SubframeOffset == SubframeOffset && dp.LJH3.FileName == FileName && !dp.LJH3.HeaderWritten
+//@   modifies dp.LJH3, dp.WritingPaused, dp.numberWritten
+
+//@ func (*DataPublisher).SetOFF
+//@   props C06 C05
+//@   ensures handle: dp.OFF != nil && fresh(dp.OFF) && !dp.WritingPaused && dp.numberWritten == 0
+//@   modifies dp.OFF, dp.WritingPaused, dp.numberWritten
+
+// ---------------------------------------------------------------------------------------------
+// Write control (C06)
+// ---------------------------------------------------------------------------------------------
+
+// InvW: what clients are told (ds.writingState) agrees with what every channel does.
+//@ pred ProcsOK(ds *AnySource) := (forall p int :: {at(ds.processors, p)} ds.processors.off <= p && p < ds.processors.off + len(ds.processors) ==> at(ds.processors, p) != nil && allocated(at(ds.processors, p)))
+//@     && (forall p int, q int :: {at(ds.processors, p), at(ds.processors, q)} ds.processors.off <= p && p < q && q < ds.processors.off + len(ds.processors) ==> at(ds.processors, p) != at(ds.processors, q))
+//@ pred InvW(ds *AnySource) := ProcsOK(ds) && allocated(ds.processors)
+//@     && (forall p int :: {at(ds.processors, p)} ds.processors.off <= p && p < ds.processors.off + len(ds.processors) ==>
+//@           ((at(ds.processors, p).LJH22 != nil) <==> (ds.writingState.Active && ds.writingState.WriteLJH22))
+//@        && ((at(ds.processors, p).LJH3 != nil) <==> (ds.writingState.Active && ds.writingState.WriteLJH3))
+//@        && ((at(ds.processors, p).OFF != nil) ==> (ds.writingState.Active && ds.writingState.WriteOFF))
+//@        && ((at(ds.processors, p).LJH22 != nil || at(ds.processors, p).LJH3 != nil || at(ds.processors, p).OFF != nil) ==> at(ds.processors, p).WritingPaused == ds.writingState.Paused))
+// Same behaviour of every channel as before (used for rejected requests).
+//@ pred ChannelsUnchanged(ds *AnySource) := forall p int :: {at(ds.processors, p)} ds.processors.off <= p && p < ds.processors.off + len(ds.processors) ==>
+//@        unchanged(at(ds.processors, p).LJH22, at(ds.processors, p).LJH3, at(ds.processors, p).OFF, at(ds.processors, p).WritingPaused)
+//@ pred ReportUnchanged(ds *AnySource) := unchanged(ds.writingState.Active, ds.writingState.Paused, ds.writingState.WriteLJH22, ds.writingState.WriteLJH3, ds.writingState.WriteOFF, ds.writingState.FilenamePattern, ds.writingState.BasePath)
+
+//@ func (*AnySource).SetExperimentStateLabel
+//@   props C06 C20
+//@   requires !IOFaults() && InvS(ds.writingState)
+//@   ensures inv: InvS(ds.writingState)
+//@   ensures rejected: !old(ds.writingState.Active) ==> result != nil && unchanged(ds.writingState.experimentStateFile, ds.writingState.ExperimentStateLabel, ds.writingState.Active, ds.writingState.Paused)
+//@   ensures accepted: old(ds.writingState.Active) ==> result == nil
+//@   modifies ds.writingState.experimentStateFile, ds.writingState.ExperimentStateLabel, ds.writingState.ExperimentStateLabelUnixNano, any(os.File).nw, any(os.File).w
+
+//@ func (*AnySource).WriteControl
+//@   props C06
+//@   opt safety_props C11
+//@   requires !IOFaults() && config != nil && InvW(ds) && InvS(ds.writingState) && ChanTablesOK(ds)
+//@   ensures inv: InvW(ds) && InvS(ds.writingState)
+//@   ensures rejected: result != nil ==> ChannelsUnchanged(ds) && ReportUnchanged(ds)
+//@   ensures pause: result == nil && hasprefix(toupper(config.Request), "PAUSE") ==> ds.writingState.Paused && unchanged(ds.writingState.Active)
+//@   ensures unpause: result == nil && !hasprefix(toupper(config.Request), "PAUSE") && hasprefix(toupper(config.Request), "UNPAUSE") ==> !ds.writingState.Paused && unchanged(ds.writingState.Active)
+//@   ensures stop: result == nil && !hasprefix(toupper(config.Request), "PAUSE") && !hasprefix(toupper(config.Request), "UNPAUSE") && hasprefix(toupper(config.Request), "STOP") ==> !ds.writingState.Active
+//@   ensures start: result == nil && !hasprefix(toupper(config.Request), "PAUSE") && !hasprefix(toupper(config.Request), "UNPAUSE") && !hasprefix(toupper(config.Request), "STOP") ==>
+//@        hasprefix(toupper(config.Request), "START") && ds.writingState.Active && !ds.writingState.Paused
+//@        && ds.writingState.WriteLJH22 == config.WriteLJH22 && ds.writingState.WriteLJH3 == config.WriteLJH3 && ds.writingState.WriteOFF == config.WriteOFF
+//@   modifies ds.writingState.*, any(DataPublisher).LJH22, any(DataPublisher).LJH3, any(DataPublisher).OFF, any(DataPublisher).WritingPaused, any(DataPublisher).numberWritten, any(os.File).nw, any(os.File).w, any(os.File).closed
+//@   loop 1
+//@     invariant -1 <= rangeindex && rangeindex <= len(ds.processors) - 1 && ProcsOK(ds) && InvS(ds.writingState) && ReportUnchanged(ds)
+//@     invariant done: forall p int :: {at(ds.processors, p)} ds.processors.off <= p && p <= ds.processors.off + rangeindex ==> at(ds.processors, p).WritingPaused
+//@     invariant rest: forall p int :: {at(ds.processors, p)} ds.processors.off <= p && p < ds.processors.off + len(ds.processors) ==> unchanged(at(ds.processors, p).LJH22, at(ds.processors, p).LJH3, at(ds.processors, p).OFF)
+//@   loop 2
+//@     invariant -1 <= rangeindex && rangeindex <= len(ds.processors) - 1 && ProcsOK(ds) && InvS(ds.writingState) && unchanged(ds.writingState.Active, ds.writingState.Paused, ds.writingState.WriteLJH22, ds.writingState.WriteLJH3, ds.writingState.WriteOFF)
+//@     invariant done: forall p int :: {at(ds.processors, p)} ds.processors.off <= p && p <= ds.processors.off + rangeindex ==> !at(ds.processors, p).WritingPaused
+//@     invariant rest: forall p int :: {at(ds.processors, p)} ds.processors.off <= p && p < ds.processors.off + len(ds.processors) ==> unchanged(at(ds.processors, p).LJH22, at(ds.processors, p).LJH3, at(ds.processors, p).OFF)
+//@   loop 3
+//@     invariant -1 <= rangeindex && rangeindex <= len(ds.processors) - 1 && ProcsOK(ds) && InvS(ds.writingState) && ReportUnchanged(ds)
+//@     invariant done: forall p int :: {at(ds.processors, p)} ds.processors.off <= p && p <= ds.processors.off + rangeindex ==> at(ds.processors, p).LJH22 == nil && at(ds.processors, p).LJH3 == nil && at(ds.processors, p).OFF == nil
+
+// The per-channel identity tables have one entry per channel (established by PrepareChannels, C19).
+//@ pred ChanTablesOK(ds *AnySource) := ds.channelsPerPixel > 0 && len(ds.rowColCodes) == len(ds.processors) && len(ds.chanNumbers) == len(ds.processors) && len(ds.chanNames) == len(ds.processors) && len(ds.subframeOffsets) == len(ds.processors)
+
+//@ ufunc hasprojectors(p *mat.Dense) bool
+//@ func (*DataStreamProcessor).HasProjectors
+//@   props C06
+//@   ensures result ==> dsp.projectors != nil
+//@   modifies nothing
+
+//@ func (RowColCode).row
+//@   props C19
+//@   ensures result == (c / 1) % 65536
+//@ func (RowColCode).col
+//@   props C19
+//@   ensures result == (c / 65536) % 65536
+//@ func (RowColCode).rows
+//@   props C19
+//@   ensures result == (c / 4294967296) % 65536
+//@ func (RowColCode).cols
+//@   props C19
+//@   ensures result == (c / 281474976710656) % 65536
+
+// makeDirectory creates a run directory that did not exist before (file-system contract: see C06 notes).
+//@ func makeDirectory
+//@   trusted
+//@   modifies nothing
+
+//@ func (*AnySource).writeControlStart
+//@   props C06
+//@   opt safety_props C11
+//@   requires !IOFaults() && config != nil && InvW(ds) && InvS(ds.writingState) && ChanTablesOK(ds)
+//@   ensures inv: InvW(ds) && InvS(ds.writingState)
+//@   ensures rejected: result != nil ==> ChannelsUnchanged(ds) && ReportUnchanged(ds)
+//@   ensures started: result == nil ==> ds.writingState.Active && !ds.writingState.Paused && (config.WriteLJH22 || config.WriteOFF || config.WriteLJH3)
+//@        && ds.writingState.WriteLJH22 == config.WriteLJH22 && ds.writingState.WriteLJH3 == config.WriteLJH3 && ds.writingState.WriteOFF == config.WriteOFF
+//@   modifies ds.writingState.*, any(DataPublisher).LJH22, any(DataPublisher).LJH3, any(DataPublisher).OFF, any(DataPublisher).WritingPaused, any(DataPublisher).numberWritten, any(os.File).nw, any(os.File).w
+//@   loop 1
+//@     invariant -1 <= rangeindex && rangeindex <= len(ds.processors) - 1
+//@     invariant done: forall p int :: {at(ds.processors, p)} ds.processors.off <= p && p <= ds.processors.off + rangeindex ==> at(ds.processors, p).LJH22 == nil && at(ds.processors, p).LJH3 == nil && at(ds.processors, p).OFF == nil
+//@   loop 2
+//@     invariant -1 <= rangeindex && rangeindex <= len(ds.processors) - 1
+//@   loop 3
+//@     invariant -1 <= rangeindex && rangeindex <= len(ds.processors) - 1 && ProcsOK(ds) && InvS(ds.writingState) && ReportUnchanged(ds) && config != nil
+//@     invariant flags: unchanged(config.WriteLJH22, config.WriteLJH3, config.WriteOFF, config.MapInternalOnly) && ChanTablesOK(ds)
+//@     invariant done: forall p int :: {at(ds.processors, p)} ds.processors.off <= p && p <= ds.processors.off + rangeindex ==>
+//@          ((at(ds.processors, p).LJH22 != nil) <==> config.WriteLJH22) && ((at(ds.processors, p).LJH3 != nil) <==> config.WriteLJH3) && (at(ds.processors, p).OFF != nil ==> config.WriteOFF) && ((at(ds.processors, p).LJH22 != nil || at(ds.processors, p).LJH3 != nil || at(ds.processors, p).OFF != nil) ==> !at(ds.processors, p).WritingPaused)
+//@     invariant rest: forall p int :: {at(ds.processors, p)} ds.processors.off + rangeindex < p && p < ds.processors.off + len(ds.processors) ==> at(ds.processors, p).LJH22 == nil && at(ds.processors, p).LJH3 == nil && at(ds.processors, p).OFF == nil
+
+// ---------------------------------------------------------------------------------------------
+// Run-log side files (C20)
+// ---------------------------------------------------------------------------------------------
+//@ ufunc lebyte(x int, j int) int
+
+//@ extern func github.com/usnistgov/dastard/getbytes.FromSliceInt64
+//@   ensures len(result) == 8 * len(d) && (len(d) > 0 ==> result != nil)
+//@   ensures forall p int :: {at(result, p)} result.off <= p && p < result.off + len(result) ==> at(result, p) == lebyte(at(d, d.off + (p - result.off) / 8), (p - result.off) % 8)
+
+// While a file name is set (writing active), the counts of this block are appended exactly once,
+// in order, as little-endian int64 after whatever the file already holds; otherwise nothing is written.
+//@ func (*AnySource).HandleExternalTriggers
+//@   props C20
+//@   requires !IOFaults() && InvS(ds.writingState) && ds.writingState.externalTriggerTicker != nil
+//@   ensures inv: InvS(ds.writingState) && result == nil
+//@   ensures idle: len(externalTriggerRowcounts) == 0 || (old(ds.writingState.externalTriggerFileBufferedWriter) == nil && ds.writingState.ExternalTriggerFilename == "") ==>
+//@        ds.writingState.externalTriggerFileBufferedWriter == old(ds.writingState.externalTriggerFileBufferedWriter)
+//@        && (old(ds.writingState.externalTriggerFileBufferedWriter) != nil ==> old(ds.writingState.externalTriggerFileBufferedWriter).n == old(ds.writingState.externalTriggerFileBufferedWriter.n))
+//@   ensures appended: len(externalTriggerRowcounts) > 0 && old(ds.writingState.externalTriggerFileBufferedWriter) != nil ==>
+//@        ds.writingState.externalTriggerFileBufferedWriter == old(ds.writingState.externalTriggerFileBufferedWriter)
+//@        && ds.writingState.externalTriggerFileBufferedWriter.n == old(ds.writingState.externalTriggerFileBufferedWriter.n) + 8 * len(externalTriggerRowcounts)
+//@        && (forall i int :: {ds.writingState.externalTriggerFileBufferedWriter.acc[i]} i < old(ds.writingState.externalTriggerFileBufferedWriter.n) ==> ds.writingState.externalTriggerFileBufferedWriter.acc[i] == old(ds.writingState.externalTriggerFileBufferedWriter.acc[i]))
+//@        && (forall i int :: {ds.writingState.externalTriggerFileBufferedWriter.acc[i]} old(ds.writingState.externalTriggerFileBufferedWriter.n) <= i && i < ds.writingState.externalTriggerFileBufferedWriter.n ==>
+//@               ds.writingState.externalTriggerFileBufferedWriter.acc[i] == lebyte(at(externalTriggerRowcounts, externalTriggerRowcounts.off + (i - old(ds.writingState.externalTriggerFileBufferedWriter.n)) / 8), (i - old(ds.writingState.externalTriggerFileBufferedWriter.n)) % 8))
+//@   ensures created: len(externalTriggerRowcounts) > 0 && old(ds.writingState.externalTriggerFileBufferedWriter) == nil && ds.writingState.ExternalTriggerFilename != "" ==>
+//@        ds.writingState.externalTriggerFileBufferedWriter != nil && fresh(ds.writingState.externalTriggerFileBufferedWriter) && fresh(ds.writingState.externalTriggerFile)
+//@        && ds.writingState.externalTriggerFileBufferedWriter.items == 2
+//@        && (forall i int :: {ds.writingState.externalTriggerFileBufferedWriter.acc[i]} ds.writingState.externalTriggerFileBufferedWriter.n - 8 * len(externalTriggerRowcounts) <= i && i < ds.writingState.externalTriggerFileBufferedWriter.n ==>
+//@               ds.writingState.externalTriggerFileBufferedWriter.acc[i] == lebyte(at(externalTriggerRowcounts, externalTriggerRowcounts.off + (i - (ds.writingState.externalTriggerFileBufferedWriter.n - 8 * len(externalTriggerRowcounts))) / 8), (i - (ds.writingState.externalTriggerFileBufferedWriter.n - 8 * len(externalTriggerRowcounts))) % 8))
+//@   modifies ds.writingState.externalTriggerFile, ds.writingState.externalTriggerFileBufferedWriter, ds.writingState.externalTriggerNumberObserved, any(bufio.Writer).n, any(bufio.Writer).acc, any(bufio.Writer).items
+
+// A block that reports dropped frames adds exactly one line while writing is active; nothing otherwise.
+//@ func (*AnySource).HandleDataDrop
+//@   props C20
+//@   requires !IOFaults() && InvS(ds.writingState) && ds.writingState.dataDropTicker != nil
+//@   ensures inv: InvS(ds.writingState) && result == nil
+//@   ensures idle: !(droppedFrames > 0 && ds.writingState.Active) ==> ds.writingState.dataDropFileBufferedWriter == old(ds.writingState.dataDropFileBufferedWriter)
+//@        && (old(ds.writingState.dataDropFileBufferedWriter) != nil ==> old(ds.writingState.dataDropFileBufferedWriter).items == old(ds.writingState.dataDropFileBufferedWriter.items))
+//@   ensures oneline: droppedFrames > 0 && ds.writingState.Active && old(ds.writingState.dataDropFileBufferedWriter) != nil ==> ds.writingState.dataDropFileBufferedWriter == old(ds.writingState.dataDropFileBufferedWriter)
+//@        && ds.writingState.dataDropFileBufferedWriter.items == old(ds.writingState.dataDropFileBufferedWriter.items) + 1
+//@   ensures created: droppedFrames > 0 && ds.writingState.Active && old(ds.writingState.dataDropFileBufferedWriter) == nil ==> ds.writingState.dataDropFileBufferedWriter != nil
+//@        && fresh(ds.writingState.dataDropFileBufferedWriter) && ds.writingState.dataDropFileBufferedWriter.items == 2
+//@   modifies ds.writingState.dataDropFile, ds.writingState.dataDropFileBufferedWriter, ds.writingState.dataDropsObserved, ds.writingState.dataDropHaveSentAMessage, any(bufio.Writer).n, any(bufio.Writer).acc, any(bufio.Writer).items
